@@ -83,13 +83,13 @@ QuarterTurns2(k) == MatPow(Quarter2, 2, k % 4)
 
 ---------------------------------------------------------------------------
 (* de Casteljau at t = k/D: row j holds the j-fold interpolated points scaled by D^j *)
-Casteljau(P, k, D) ==
-    LET n == Len(P) - 1
-        T[j \in 0..n] == IF j = 0 THEN P
-                         ELSE [i \in 1..(n + 1 - j) |->
-                                 <<T[j - 1][i][1] * (D - k) + T[j - 1][i + 1][1] * k,
-                                   T[j - 1][i][2] * (D - k) + T[j - 1][i + 1][2] * k>>]
-    IN T
+NextRow(row, k, D) == [i \in 1..(Len(row) - 1) |->
+                          <<row[i][1] * (D - k) + row[i + 1][1] * k, row[i][2] * (D - k) + row[i + 1][2] * k>>]
+RECURSIVE CastRows(_, _, _, _)
+CastRows(row, k, D, acc) == IF Len(row) = 1 THEN Append(acc, row)
+                            ELSE CastRows(NextRow(row, k, D), k, D, Append(acc, row))
+\* Casteljau(P, k, D)[j] for j = 0..n
+Casteljau(P, k, D) == LET rows == CastRows(P, k, D, <<>>) IN [j \in 0..(Len(P) - 1) |-> rows[j + 1]]
 ScalePt(p, c) == <<p[1] * c, p[2] * c>>
 \* the curve point at k/D scaled by D^n
 BezierAt(P, k, D) == Casteljau(P, k, D)[Len(P) - 1][1]
